@@ -35,6 +35,7 @@ impl<T: PartialOrd> PartialEqSpecImpl for Interval<T> {
     open spec fn obeys_eq_spec() -> bool { T::obeys_eq_spec() }
     open spec fn eq_spec(&self, other: &Self) -> bool { ieq(*self, *other) }
 }
+//@include prelude/interval_core_code.rs
 //@impl src/interval.rs impl<T: PartialOrd> PartialOrd for Interval<T> => impl<T: PartialOrd> Interval<T>
 //@fn partial_cmp ret r vis pub
 //@| requires total_order::<T>(), eq_coherent::<T>(), wf(*self), wf(*other),
